@@ -26,14 +26,143 @@ func (r *rs) header() {
 	}
 	info := fn.Pkg.TypesInfo
 	_, rd := param(fn, 0)
+	// The stream may reach the header parser under another name. A name that denotes the SAME reader (a
+	// copy, a conversion, a type assertion `br, ok := r.(*bufio.Reader)`) is the stream. A buffered reader
+	// created over it here (bufio.NewReader(r)) is a different reader: it takes more than it is asked for
+	// from the stream and keeps it in a buffer that nobody reads once the header is parsed - the callers go
+	// on with the reader they handed in (this function returns only the size channel).
+	streams := map[types.Object]bool{}
+	wraps := map[types.Object][]*ast.CallExpr{}
+	foreign := map[types.Object]bool{} // also assigned something that is not derived from the stream
+	handled := map[*ast.Ident]bool{}
+	if rd != nil {
+		streams[rd] = true
+	}
+	derive := func(e ast.Expr) (kind string, wrap *ast.CallExpr) {
+		e = ast.Unparen(e)
+		if ta, ok := e.(*ast.TypeAssertExpr); ok && ta.Type != nil {
+			e = ast.Unparen(ta.X)
+		}
+		e = unconv(info, e)
+		if o := flow.Obj(info, e); o != nil && streams[o] {
+			return "same", nil
+		}
+		if call, ok := e.(*ast.CallExpr); ok && len(call.Args) >= 1 {
+			if f := core.CalleeFunc(info, call); f != nil && f.Pkg() != nil && f.Pkg().Path() == "bufio" {
+				if o := flow.Obj(info, unconv(info, call.Args[0])); o != nil && streams[o] {
+					return "wrap", call
+				}
+			}
+		}
+		return "", nil
+	}
+	for round := 0; round < 3; round++ {
+		core.InspectAll(fn.Decl.Body, func(m ast.Node) bool {
+			var lhs []*ast.Ident
+			var rhs []ast.Expr
+			switch x := m.(type) {
+			case *ast.AssignStmt:
+				if x.Tok != token.ASSIGN && x.Tok != token.DEFINE {
+					return true
+				}
+				for i, l := range x.Lhs {
+					id, _ := ast.Unparen(l).(*ast.Ident)
+					switch {
+					case len(x.Lhs) == len(x.Rhs):
+						lhs, rhs = append(lhs, id), append(rhs, x.Rhs[i])
+					case i == 0 && len(x.Rhs) == 1: // v, ok := r.(T)
+						if _, isTA := ast.Unparen(x.Rhs[0]).(*ast.TypeAssertExpr); isTA {
+							lhs, rhs = append(lhs, id), append(rhs, x.Rhs[0])
+						}
+					}
+				}
+			case *ast.ValueSpec:
+				if len(x.Values) == len(x.Names) {
+					for i, nm := range x.Names {
+						lhs, rhs = append(lhs, nm), append(rhs, x.Values[i])
+					}
+				}
+			}
+			for i, id := range lhs {
+				if id == nil || id.Name == "_" {
+					continue
+				}
+				o := core.ObjOf(info, id)
+				if o == nil || o == rd {
+					continue
+				}
+				switch kind, wrap := derive(rhs[i]); kind {
+				case "same", "wrap":
+					streams[o] = true
+					handled[id] = true
+					if wrap != nil {
+						seen := false
+						for _, w := range wraps[o] {
+							seen = seen || w == wrap
+						}
+						if !seen {
+							wraps[o] = append(wraps[o], wrap)
+						}
+					}
+					core.InspectAll(rhs[i], func(n ast.Node) bool {
+						if rid, ok := n.(*ast.Ident); ok && streams[info.Uses[rid]] {
+							handled[rid] = true
+						}
+						return true
+					})
+				default:
+					if streams[o] {
+						foreign[o] = true
+					}
+				}
+			}
+			return true
+		})
+	}
 	var lit *ast.FuncLit
 	for _, fl := range core.FuncLits(fn.Decl.Body) {
-		if core.Mentions(info, fl, rd) {
+		uses := false
+		for o := range streams {
+			uses = uses || core.Mentions(info, fl, o)
+		}
+		if uses {
 			if lit != nil {
 				c.Undecidedf("R1.header", "waitRdbDump/reader-uses", fl.Pos(), "the stream is used by more than one function literal")
 				return
 			}
 			lit = fl
+		}
+	}
+	// the name under which the parser reads
+	if lit != nil {
+		var names []types.Object
+		for o := range streams {
+			reads := false
+			core.InspectAll(lit, func(m ast.Node) bool {
+				if call, ok := m.(*ast.CallExpr); ok && flow.MethodOn(call, "Read", flow.IsObj(info, o)) {
+					reads = true
+				}
+				return !reads
+			})
+			if reads {
+				names = append(names, o)
+			}
+		}
+		switch {
+		case len(names) == 1:
+			rd = names[0]
+		case len(names) > 1:
+			c.Undecidedf("R1.header", "waitRdbDump/reader-uses", lit.Pos(), "the header parser reads the stream under %d names", len(names))
+			return
+		}
+	}
+	if rd != nil && foreign[rd] {
+		c.Undecidedf("R1.header", "waitRdbDump/reader-uses", fn.Decl.Pos(), "%s is also assigned something that is not the stream", rd.Name())
+		return
+	}
+	if rd != nil {
+		for _, w := range wraps[rd] {
+			c.Failf("R1.header", "waitRdbDump/no-buffered-reader", w.Pos(), "the header is parsed through %s, a buffered reader created here over the stream: it takes more than the bytes of '$n\\r\\n' from the stream (whatever arrived with them) and is dropped with the parser, while the callers go on reading the reader they handed in - the first RDB bytes never reach the RDB consumer", c.Src(w))
 		}
 	}
 	// the region that parses the header: the goroutine literal, or the body of a same-package function
@@ -44,7 +173,7 @@ func (r *rs) header() {
 	var retChan types.Object // when the region is a helper: the caller's channel handed to it
 	var chanParam types.Object
 	if lit != nil {
-		body, g = lit.Body, cfgq.OfLit(c.Program, info, lit)
+		body, g = lit.Body, flow.GraphOfLit(c.Program, info, lit)
 	} else if rd != nil {
 		core.Inspect(fn.Decl.Body, func(m ast.Node) bool {
 			gs, ok := m.(*ast.GoStmt)
@@ -59,7 +188,13 @@ func (r *rs) header() {
 			var newRd types.Object
 			for i, a := range gs.Call.Args {
 				_, po := param(h, i)
-				if flow.IsObj(info, rd)(a) {
+				if ao := flow.Obj(info, a); ao != nil && (ao == rd || streams[ao]) {
+					if id, isID := ast.Unparen(a).(*ast.Ident); isID {
+						handled[id] = true
+					}
+					for _, w := range wraps[ao] {
+						c.Failf("R1.header", "waitRdbDump/no-buffered-reader", w.Pos(), "the header parser is started on %s, a buffered reader created here over the stream: it reads ahead past '$n\\r\\n' and is dropped with the parser, while the callers go on reading the reader they handed in", c.Src(w))
+					}
 					newRd = po
 				} else if _, isChan := info.TypeOf(a).Underlying().(*types.Chan); isChan && po != nil {
 					retChan, chanParam = flow.Obj(info, a), po
@@ -67,7 +202,7 @@ func (r *rs) header() {
 			}
 			if newRd != nil {
 				// the only use of the stream in the caller is this hand-over
-				body, g, rd = h.Decl.Body, cfgq.Of(c.Program, h), newRd
+				body, g, rd = h.Decl.Body, flow.GraphOf(c.Program, h), newRd
 				scan = []ast.Node{h.Decl.Body}
 			}
 			return true
@@ -79,7 +214,6 @@ func (r *rs) header() {
 	}
 	// every use of the stream is a 1-byte Read
 	var reads []*ast.CallExpr
-	handled := map[*ast.Ident]bool{}
 	core.InspectAll(scan[0], func(m ast.Node) bool {
 		call, ok := m.(*ast.CallExpr)
 		if !ok {
@@ -103,7 +237,7 @@ func (r *rs) header() {
 		return true
 	})
 	core.InspectAll(scan[0], func(m ast.Node) bool {
-		if id, ok := m.(*ast.Ident); ok && info.Uses[id] == rd && !handled[id] {
+		if id, ok := m.(*ast.Ident); ok && (info.Uses[id] == rd || streams[info.Uses[id]]) && !handled[id] {
 			c.Undecidedf("R1.header", "waitRdbDump/reader-uses", id.Pos(), "unrecognised use of the stream")
 		}
 		return true
@@ -232,8 +366,84 @@ func (r *rs) header() {
 		"the size may be announced only once the header ends in (CR) LF (the first LF of a well-formed header is its last byte): stopping earlier leaves header bytes in the stream in front of the RDB, stopping later eats RDB bytes")
 	// the number
 	// the number: Atoi/ParseInt over a window of the header
+	// The text handed to Atoi/ParseInt as a window [lo, hi) of the header, however it is cut out: a slice
+	// expression, strings.TrimSuffix/TrimPrefix with the terminator / the marker (the header is known to
+	// end in CR LF and to start with the marker where the size is announced: complete-at-crlf, marker),
+	// strings.TrimSpace (which removes the trailing CR LF), through conversions and single-use locals.
+	var window func(e ast.Expr, depth int) (lo, hi lin.Form, ok bool)
+	window = func(e ast.Expr, depth int) (lin.Form, lin.Form, bool) {
+		e = unconv(info, e)
+		if depth > 4 {
+			return lin.Form{}, lin.Form{}, false
+		}
+		if isRsp(e) { // before looking through locals: the header variable itself has definitions
+			return zero, hdr.Length, true
+		}
+		e = unconv(info, flow.ValueOf(info, body, e))
+		if isRsp(e) {
+			return zero, hdr.Length, true
+		}
+		switch x := e.(type) {
+		case *ast.SliceExpr:
+			lo, hi, ok := window(x.X, depth+1)
+			if !ok || x.Max != nil {
+				return lo, hi, false
+			}
+			// indices of a slice of a window count from the window's start
+			if x.High != nil {
+				hi = lin.Of(info, x.High)
+				for a, v := range lo.Coef {
+					hi.Coef[a] += v
+				}
+				hi.Const += lo.Const
+			}
+			if x.Low != nil {
+				l := lin.Of(info, x.Low)
+				out := lin.Form{Coef: map[string]int64{}, Const: lo.Const + l.Const}
+				for a, v := range lo.Coef {
+					out.Coef[a] += v
+				}
+				for a, v := range l.Coef {
+					out.Coef[a] += v
+				}
+				lo = out
+			}
+			return lo, hi, true
+		case *ast.CallExpr:
+			f := core.CalleeFunc(info, x)
+			if f == nil || f.Pkg() == nil || f.Pkg().Path() != "strings" || len(x.Args) == 0 {
+				return lin.Form{}, lin.Form{}, false
+			}
+			lo, hi, ok := window(x.Args[0], depth+1)
+			if !ok {
+				return lo, hi, false
+			}
+			atEnd := hi.Equal(hdr.Length)
+			atStart := len(lo.Coef) == 0 && lo.Const == 0
+			switch f.Name() {
+			case "TrimSuffix":
+				if k, isK := core.StringConst(info, x.Args[1]); isK && atEnd && (k == "\r\n" || k == "\n") {
+					return lo, flow.Shift(hi, -int64(len(k))), true
+				}
+			case "TrimPrefix":
+				if k, isK := core.StringConst(info, x.Args[1]); isK && atStart && k == "$" {
+					return flow.Shift(lo, 1), hi, true
+				}
+			case "TrimSpace":
+				if atEnd {
+					return lo, flow.Shift(hi, -2), true
+				}
+			case "TrimRight":
+				if k, isK := core.StringConst(info, x.Args[1]); isK && atEnd && (k == "\r\n" || k == "\n\r") {
+					return lo, flow.Shift(hi, -2), true
+				}
+			}
+		}
+		return lin.Form{}, lin.Form{}, false
+	}
 	var atoi *ast.AssignStmt
-	var win *ast.SliceExpr
+	var loF, hiF lin.Form
+	var winSrc ast.Expr
 	core.Inspect(body, func(m ast.Node) bool {
 		as, ok := m.(*ast.AssignStmt)
 		if !ok || len(as.Rhs) != 1 || len(as.Lhs) != 2 || atoi != nil {
@@ -243,21 +453,14 @@ func (r *rs) header() {
 		if f := core.CalleeFunc(info, call); !ok || f == nil || len(call.Args) == 0 || !(core.IsFunc(f, "strconv", "", "Atoi") || core.IsFunc(f, "strconv", "", "ParseInt")) {
 			return true
 		}
-		if se, isSlice := unconv(info, flow.ValueOf(info, body, unconv(info, call.Args[0]))).(*ast.SliceExpr); isSlice && isRsp(se.X) && se.Max == nil {
-			atoi, win = as, se
+		if lo, hi, isWin := window(call.Args[0], 0); isWin {
+			atoi, loF, hiF, winSrc = as, lo, hi, call.Args[0]
 		}
 		return true
 	})
 	if atoi == nil {
-		c.Undecidedf("R4.frame", "waitRdbDump/digits", lit.Pos(), "cannot find `n, err := strconv.Atoi(rsp[lo:hi])`")
+		c.Undecidedf("R4.frame", "waitRdbDump/digits", lit.Pos(), "cannot find `n, err := strconv.Atoi(<a window of the header>)`")
 		return
-	}
-	loF, hiF := zero, hdr.Length
-	if win.Low != nil {
-		loF = lin.Of(info, win.Low)
-	}
-	if win.High != nil {
-		hiF = lin.Of(info, win.High)
 	}
 	back := lin.Form{Coef: map[string]int64{}, Const: hiF.Const - hdr.Length.Const}
 	for a, v := range hiF.Coef {
@@ -270,7 +473,7 @@ func (r *rs) header() {
 		}
 	}
 	if len(loF.Coef) != 0 || len(back.Coef) != 0 {
-		c.Undecidedf("R4.frame", "waitRdbDump/digits", atoi.Pos(), "window %s is not rsp[const : len(rsp)-const]", c.Src(win))
+		c.Undecidedf("R4.frame", "waitRdbDump/digits", atoi.Pos(), "window %s is not rsp[const : len(rsp)-const]", c.Src(winSrc))
 	} else {
 		c.Check("R4.frame", "waitRdbDump/digits", atoi.Pos(), loF.Const == 1 && back.Const == -2, fmt.Sprintf("the size is the text between the 1-byte marker and the 2-byte CR LF (found rsp[%d : len%+d]): any other window makes Atoi fail or drop a digit for every well-formed header", loF.Const, back.Const))
 	}
